@@ -311,8 +311,12 @@ class AnsiString:
         for point in self._fmts.values():
             point.add = [x for x in point.add if keep(x)]
             point.rem = [x for x in point.rem if keep(x)]
-        # Re-parse string
+        # Re-parse the formatting. The base string itself is text and must not be parsed for escape sequences again:
+        # escape characters in it are masked while the rendered string is parsed (the text keeps its length)
+        text = self._s
+        self._s = text.replace('\x1b', '?')
         self.set_ansi_str(str(self))
+        self._s = text
 
     def _shift_settings_idx(self, num:int, keep_origin:bool):
         '''
